@@ -71,6 +71,33 @@ def showReadResp (o : Option (List HeaderResponse)) : String :=
   | some rs => s!"ok {showResps rs}"
   | none => "err"
 
+/-- (S9) reader events beside plain chunking, all on one `read` call (0-based index):
+    `pend=i`  the i-th call never completes: `timeout` fires (`Err(_) => break`) — for the buffer the
+              same as EOF at that call (the model does not model time): the schedule is cut there by a 0;
+    `block=i` the i-th call delivers its chunk only after the time limit has passed: the next
+              loop iteration finds no time left (`checked_sub` → `break`): EOF right after that call;
+    `fail=i`  the i-th call returns an I/O error: `readRequestFail` / `readResponsesFail`. -/
+def effCuts (ws : List String) (cuts : List Nat) : List Nat :=
+  match natArg? ws "pend", natArg? ws "block" with
+  | some i, _ => cuts.take i ++ [0]
+  | none, some i => cuts.take (i + 1) ++ [0]
+  | none, none => cuts
+
+def readReqOp (ws : List String) (limit : Nat) (data : Bytes) (cuts : List Nat) : Option HeaderRequest :=
+  match natArg? ws "fail" with
+  | some f => readRequestFail limit data (effCuts ws cuts) f
+  | none => readRequest limit data (effCuts ws cuts)
+
+def readRespOp (ws : List String) (limit : Nat) (data : Bytes) (cuts : List Nat) : Option (List HeaderResponse) :=
+  match natArg? ws "fail" with
+  | some f => readResponsesFail limit data (effCuts ws cuts) f
+  | none => readResponses limit data (effCuts ws cuts)
+
+/-- the op carries a reader event under which "no value" is always legitimate (the network did not
+    deliver): the property only demands that a value, if one is read, is the right one -/
+def hasReaderEvent (ws : List String) : Bool :=
+  (natArg? ws "fail").isSome || (natArg? ws "pend").isSome || (natArg? ws "block").isSome
+
 open Lumina.Gen.C30 in
 def step (_ : Unit) (line : String) : Unit × String :=
   let ws := words line
@@ -88,21 +115,21 @@ def step (_ : Unit) (line : String) : Unit × String :=
       match parseReq ws with
       | some r =>
         let w := writeRequest r
-        s!"{wireShow w} {showReadReq (readRequest REQUEST_SIZE_LIMIT (truncOf ws w) cuts)}"
+        s!"{wireShow w} {showReadReq (readReqOp ws REQUEST_SIZE_LIMIT (truncOf ws w) cuts)}"
       | none => "bad-op"
     | "resp" :: _ =>
       match (arg? ws "items").bind parseItems with
       | some rs =>
         let w := writeResponses rs
-        s!"{wireShow w} {showReadResp (readResponses RESPONSE_SIZE_LIMIT (truncOf ws w) cuts)}"
+        s!"{wireShow w} {showReadResp (readRespOp ws RESPONSE_SIZE_LIMIT (truncOf ws w) cuts)}"
       | none => "bad-op"
     | "rawreq" :: _ =>
       match hexArg? ws "data" with
-      | some d => showReadReq (readRequest REQUEST_SIZE_LIMIT d cuts)
+      | some d => showReadReq (readReqOp ws REQUEST_SIZE_LIMIT d cuts)
       | none => "bad-op"
     | "rawresp" :: _ =>
       match hexArg? ws "data" with
-      | some d => showReadResp (readResponses RESPONSE_SIZE_LIMIT d cuts)
+      | some d => showReadResp (readRespOp ws RESPONSE_SIZE_LIMIT d cuts)
       | none => "bad-op"
     | _ => "bad-op"
   ((), out)
@@ -149,7 +176,8 @@ def spec (_ : Unit) (op : String) (obs : String) : String :=
     match parseReq ws, natArg? os "wl", obsReq os with
     | some r, some wl, some o =>
       let cut := (natArg? ws "trunc").getD wl
-      if cut < wl then
+      if hasReaderEvent ws && o == .err then "specok"
+      else if cut < wl then
         (if specTruncated o then "specok" else "specfail C30/request-truncated-not-error a strict prefix of a written request was read as a value")
       else if wl ≤ 1024 then
         (if specRoundTrip (showReq r) true o then "specok"
@@ -169,7 +197,8 @@ def spec (_ : Unit) (op : String) (obs : String) : String :=
       else
       let cut := (natArg? ws "trunc").getD wl
       let limit := 10 * 1024 * 1024
-      if cut < wl then
+      if hasReaderEvent ws && o == .err then "specok"
+      else if cut < wl then
         -- truncated stream (chunks are positive in `resp` ops: the reader gets min cut limit bytes)
         if specTruncated o then "specok"
         else if completeCount lens (min cut limit) ≥ 1 && specTruncatedExact lens sent (min cut limit) o then
